@@ -127,6 +127,9 @@ func init() {
 	reg("pkgWithMessage", pkgerrors.WithMessage(base, "m"))
 	reg("pkgWithStack", pkgerrors.WithStack(base))
 	reg("osPathError", &os.PathError{Op: "o", Path: "p", Err: base})
+	// the type name of os.PathError is io/fs.PathError, its family (built-in
+	// migration) os.PathError
+	Fam2Ty["io/fs/*fs.PathError"] = "fsPathError"
 	reg("osLinkError", &os.LinkError{Op: "o", Old: "a", New: "b", Err: base})
 	reg("osSyscallError", os.NewSyscallError("s", base))
 	reg("uPtrLeaf", &utypes.UPtrLeaf{})
@@ -135,6 +138,7 @@ func init() {
 	reg("uIsLeaf", &utypes.UIsLeaf{})
 	reg("uIsIdLeaf", &utypes.UIsIdLeaf{})
 	reg("uSafeMsgLeaf", &utypes.USafeMsgLeaf{})
+	reg("uSafeDetLeaf", &utypes.USafeDetLeaf{})
 	reg("uProtoLeaf", &errorspb.TestError{})
 	reg("uWrapU", &utypes.UWrapU{Err: base})
 	reg("uWrapC", &utypes.UWrapC{Err: base})
@@ -204,8 +208,12 @@ func init() {
 		}
 		return d
 	}
+	// "http code: 404" -> "http code: "
 	stripDigits := func(s string) string {
-		return strings.TrimRight(s, "0123456789")
+		if i := strings.LastIndex(s, ": "); i >= 0 {
+			return s[:i+2]
+		}
+		return s
 	}
 	DetailLit := map[string]string{
 		"withStack":            detail(errors.WithStack(base)),
